@@ -443,6 +443,36 @@ func (e *effEngine) aliasTargets(fi *core.FuncInfo, p *core.Path) []*core.Path {
 }
 
 func (e *effEngine) recordPath(fi *core.FuncInfo, p *core.Path, how string, pos token.Pos, value ast.Expr, rel []core.Step, via []string, origin *core.FuncInfo, lhs string, unknownRel bool) {
+	// an element of a table literal of pointers aliases what the table was built from
+	if p != nil && p.RootLit != nil && len(p.Steps) >= 1 && p.Steps[0].Field == nil && len(via) < 12 {
+		lit := core.Unparen(p.RootLit)
+		if u, ok := lit.(*ast.UnaryExpr); ok {
+			lit = core.Unparen(u.X)
+		}
+		if cl, ok := lit.(*ast.CompositeLit); ok {
+			var elem types.Type
+			switch u := fi.Pkg.TypesInfo.TypeOf(cl).Underlying().(type) {
+			case *types.Slice:
+				elem = u.Elem()
+			case *types.Array:
+				elem = u.Elem()
+			case *types.Map:
+				elem = u.Elem()
+			}
+			if elem != nil && pointerLike(elem) {
+				nrel := append(append([]core.Step{}, p.Steps[1:]...), rel...)
+				if len(nrel) > 0 {
+					for _, el := range cl.Elts {
+						if kv, ok := el.(*ast.KeyValueExpr); ok {
+							el = kv.Value
+						}
+						e.recordWrite(fi, el, how, pos, value, nrel, via, origin, lhs, unknownRel)
+					}
+				}
+				return
+			}
+		}
+	}
 	root, param, obj, fresh := e.classify(fi, p)
 	if fresh {
 		return
